@@ -29,8 +29,9 @@ EigIsland(c) ==
         Cg == FillCores(IF c.cplx THEN "complex" ELSE "real", c.seed + 7, OpShape(c.dims, 1))
     IN  [A |-> HermCores(c.kind, G, c.dims),
          B |-> IF c.gen THEN AddCores(MatMulCores(AdjCores(Cg), Cg), EyeCores(c.dims, 1)) ELSE <<>>,
-         x0 |-> FullRankCores(c.dims, c.r0, c.seed + 3, c.cplx),
-         xfull |-> FullRankCores(c.dims, MaxRanks(c.dims), c.seed + 2, c.cplx)]
+         \* seed 2: real-valued (real dtype) guesses also for complex operators (mixed dtypes)
+         x0 |-> FullRankCores(c.dims, c.r0, c.seed + 3, c.cplx /\ c.seed # 2),
+         xfull |-> FullRankCores(c.dims, MaxRanks(c.dims), c.seed + 2, c.cplx /\ c.seed # 2)]
 
 EigDims == IF Level = 1 THEN {<<2, 2>>, <<2, 2, 2>>, <<3, 2>>, <<2, 3, 2>>} ELSE
            {<<2>>, <<2, 2>>, <<2, 2, 2>>, <<3, 2>>, <<2, 3, 2>>, <<2, 2, 2, 2>>, <<3, 3>>, <<2, 2, 3>>}
